@@ -1,6 +1,7 @@
 """E6 table rules, part 1: R-OPEN-TABLE, R-CLEAR-AGREE, R-BST-AGREE, R-PARENT-PAIR, R-ALLOC, R-ANCESTOR-FLAG, R-TRACK-AGREE,
 R-PAGE-REPORT."""
 import ast
+import re
 
 from ..core import rule
 from ..program import AnalysisError
@@ -8,9 +9,53 @@ from ..abpe import ABPE
 from ..effects import TRIE_NODE, STORAGES
 
 
-def tables(ctx, u, stmts=None, iters=None, keep=None, env=None, max_paths=60000):
+def invariant_defs(ctx, u, stmts):
+    """assignments of u, outside the region `stmts`, that define a name the region reads, exactly once, from request parameters,
+    constants and other such names only (no package call): executing them before the region gives the region's atoms their meaning
+    (`need_outlinks = include_outbound or include_internal` hoisted out of a loop)"""
+    from ..dataflow import single_defs
+    P = ctx.P
+    region_nodes = set()
+    for s_ in stmts:
+        for x in ast.walk(s_):
+            region_nodes.add(id(x))
+    read = {x.id for s_ in stmts for x in ast.walk(s_) if isinstance(x, ast.Name) and isinstance(x.ctx, ast.Load)}
+    bound = {n_ for s_ in stmts for x in ast.walk(s_) if isinstance(x, (ast.Assign, ast.AugAssign, ast.For, ast.AnnAssign))
+             for t in (x.targets if isinstance(x, ast.Assign) else [x.target]) for n_ in _names(t)}
+    defs = single_defs(P, u)
+    out, done = [], set(u.params)
+    changed = True
+    while changed:
+        changed = False
+        for name, val in defs.items():
+            if name in done or name in bound or name not in read:
+                continue
+            if any(isinstance(c, ast.Call) and any(t.cls or t.module.startswith('traph') for t in P.targets(c)) for c in ast.walk(val)):
+                continue
+            if isinstance(val, (ast.Call, ast.Attribute, ast.Subscript, ast.List, ast.Dict, ast.Set, ast.ListComp)):
+                continue
+            used = {x.id for x in ast.walk(val) if isinstance(x, ast.Name)}
+            if not used <= done | {n_ for n_ in used if n_.isupper()}:
+                read |= used
+                continue
+            st = [a for a in P.own(u, ast.Assign) if a.value is val]
+            if st and id(st[0]) not in region_nodes:
+                out.append(st[0])
+                done.add(name)
+                changed = True
+    out.sort(key=lambda a: a.lineno)
+    return out
+
+
+def _names(t):
+    return [x.id for x in ast.walk(t) if isinstance(x, ast.Name)]
+
+
+def tables(ctx, u, stmts=None, iters=None, keep=None, env=None, max_paths=60000, hoist=False):
     if iters is None:
         iters = 2 if ctx.tier == 'thorough' else 1
+    if hoist and stmts is not None:
+        stmts = invariant_defs(ctx, u, list(stmts)) + list(stmts)
     from ..consts import const_env, UNKNOWN
     CE = const_env(ctx)
     mod = u.module
@@ -141,7 +186,7 @@ def open_table(ctx, rr):
             if not ok:
                 fail(r, None, 'the in-memory branch does not build two MemoryStorage and both structures')
             for g in regs:
-                ok = len(g.args) >= 3 and g.args[2] == 'True'
+                ok = len(g.args) >= 3 and g.args[2].replace(' ', '') in ('True', 'write_in_trie=True')
                 if ('mem', 'reg') not in seen:
                     rr.ob(ctx.where(u, g.node), 'an in-memory index is always fresh: rules are registered with write_in_trie=True', ok=ok)
                     seen.add(('mem', 'reg'))
@@ -193,7 +238,7 @@ def clear_agree(ctx, rr):
         if not ok:
             rr.fail(ctx.finding('R-CLEAR-AGREE', u, u.node, 'clear() does not rebuild both structures after resetting the stores', stmt='clear rebuild %s' % mem))
         for g in r.calls('add_webentity_creation_rule'):
-            ok = len(g.args) >= 3 and g.args[2] == 'True'
+            ok = len(g.args) >= 3 and g.args[2].replace(' ', '') in ('True', 'write_in_trie=True')
             if 'reg' not in seen:
                 rr.ob(ctx.where(u, g.node), 'rules given to clear() are written into the emptied trie (write_in_trie=True)', ok=ok)
                 seen.add('reg')
@@ -400,7 +445,7 @@ def bst_agree(ctx, rr):
     n_desc = 0
     for qual in ('LRUTrie.lru_node', 'LRUTrie.follow_lru'):
         u = P.unit(qual)
-        fors = [f for f in P.own(u, ast.For) if any(isinstance(x, ast.While) for x in ast.walk(f))
+        fors = [f for f in P.own(u, ast.For) if any(isinstance(x, ast.Call) and isinstance(x.func, ast.Attribute) and x.func.attr == 'read_child' for x in ast.walk(f))
                 and isinstance(f.iter, ast.Call) and isinstance(f.iter.func, ast.Name) and f.iter.func.id in ('range', 'enumerate')]
         if len(fors) != 1:
             raise AnalysisError('R-BST-AGREE: stem loop of %s not recognised' % qual)
@@ -413,31 +458,41 @@ def bst_agree(ctx, rr):
             raise AnalysisError('R-BST-AGREE: index of the stem loop of %s not recognised' % qual)
         rows = tables(ctx, u, stmts=lp.body, iters=1, keep=lambda n, c: n in ('has_child', 'read_child', 'read_left', 'read_right'))
         bad = []
+        groups = {}
         for r in rows:
             if r.calls(('read_left', 'read_right')):
                 continue
-            matched = [v for k, v in r.val.items() if k.startswith('ORD:') and v == 'EQ'] or [v for k, v in r.val.items() if k.startswith('EQ:') and v is True]
-            if not matched:
-                continue
+            # the atom that tells whether stems remain: any linear / equality atom about the loop index
+            idx = None
+            for k in r.order:
+                if k.startswith(('LIN:', 'EQ:', 'ORD:')) and (iv in re.findall(r'[A-Za-z_][A-Za-z_0-9]*', k) or iv in re.findall(r'[A-Za-z_][A-Za-z_0-9]*', r.src.get(k, ''))) \
+                        and '.stem()' not in k:
+                    idx = (k, r.val[k])
+            reached = idx is not None or any(base(k).endswith('.has_child()') for k in r.val) or r.calls('read_child')
+            if not reached and r.outcome == 'return':
+                continue          # left inside the sibling search (stem not stored)
             n_desc += 1
-            nl = None
-            for key in r.lin:
-                names = dict(key)
-                if iv in names and len(names) == 2:
-                    other = [k_ for k_ in names if k_ != iv][0]
-                    nl = r.lin_known({iv: 1, other: -1}, '<=', -2)
-            hc = [v for k, v in r.val.items() if base(k).endswith('.has_child()')]
-            rc = r.calls('read_child')
-            if nl is True:
-                if not hc:
-                    bad.append((r, 'the walk goes on to the next stem without asking whether the matched node has a child'))
-                elif hc[-1] and not rc:
-                    bad.append((r, 'the matched node has a child but the walk does not move to it'))
-                elif not hc[-1] and (rc or r.outcome != 'return'):
-                    bad.append((r, 'the matched node has no child and stems remain, but the walk does not stop as "not stored": the remaining stems are compared against the '
-                                   'same node again, so an LRU that was never written is reported as located'))
-            elif rc:
-                bad.append((r, 'the walk moves to the child although the last stem was matched (or without establishing that stems remain)'))
+            groups.setdefault(idx, []).append(r)
+        desc = [g for g, rs in groups.items() if any(r.calls('read_child') for r in rs)]
+        if None in groups and len(groups) == 1:
+            bad.append((groups[None][0], 'the descent does not depend on whether stems remain'))
+        elif len(desc) != 1:
+            bad.append((rows[0], 'the walk moves to the child in %d of the %d cases of its "stems remain" test (expected exactly one)' % (len(desc), len(groups))))
+        else:
+            for g, rs in groups.items():
+                for r in rs:
+                    hc = [v for k, v in r.val.items() if base(k).endswith('.has_child()')]
+                    rc = r.calls('read_child')
+                    if g == desc[0]:
+                        if not hc:
+                            bad.append((r, 'the walk goes on to the next stem without asking whether the matched node has a child'))
+                        elif hc[-1] and not rc:
+                            bad.append((r, 'the matched node has a child but the walk does not move to it'))
+                        elif not hc[-1] and (rc or r.outcome != 'return'):
+                            bad.append((r, 'the matched node has no child and stems remain, but the walk does not stop as "not stored": the remaining stems are compared against '
+                                           'the same node again, so an LRU that was never written is reported as located'))
+                    elif rc:
+                        bad.append((r, 'the walk moves to the child although the last stem was matched'))
         rr.ob(ctx.where(u, lp), 'descent step of %s: stems remain and no child -> not stored; stems remain and child -> move down; last stem -> stay (%d rows)' % (qual, len(rows)), ok=not bad)
         for r, msg in bad:
             rr.fail(ctx.finding('R-BST-AGREE', u, lp, '%s: %s' % (qual, msg), detail={'row': r.show()[:400]}, stmt='%s descent: %s' % (qual, msg[:50])))
